@@ -329,3 +329,106 @@ Qed.
    every path text, recursive or not *)
 Lemma unlink_first_call_fails fuel st p r : d_unlink_o fuel (Some O) st p r = (st, false, None).
 Proof. destruct fuel; cbn [d_unlink_o tick is_enotempty negb orb]; rewrite orb_true_r; reflexivity. Qed.
+
+(* ---- a fault that is not consumed --------------------------------------------------------------------------- *)
+(* The oracle that comes back says whether the failing call was reached: Some _ = the operation made fewer
+   calls than the position of the fault, so no call failed.  Such a run is the fault-free run, exactly: the
+   same tree, the same answer.  (This is what the property oracle of checks/C19.py relies on: when the
+   harness reports that the armed fault was not consumed, the fault-free expectation applies.) *)
+
+Lemma f_unlink_o_unconsumed o st p st' b n :
+  f_unlink_o o st p = (st', b, Some n) -> f_unlink_o None st p = (st', b, None).
+Proof.
+  unfold f_unlink_o. destruct o as [[|k]|]; cbn [tick].
+  - intro E. inversion E.
+  - destruct (f_unlink st p) as [s1 b1]. intro E. inversion E. reflexivity.
+  - destruct (f_unlink st p) as [s1 b1]. intro E. inversion E.
+Qed.
+
+Definition unconsumed_ok (f : nat) : Prop :=
+  forall o st p r st' b n,
+    d_unlink_o f o st p r = (st', b, Some n) -> d_unlink_o f None st p r = (st', b, None).
+
+Lemma unlink_entries_o_unconsumed f (IHf : unconsumed_ok f) : forall l o s pre s' ok n,
+  unlink_entries_o (fun o' s0 p0 => d_unlink_o f o' s0 p0 true) o s pre l = (s', ok, Some n) ->
+  unlink_entries_o (fun o' s0 p0 => d_unlink_o f o' s0 p0 true) None s pre l = (s', ok, None).
+Proof.
+  induction l as [|[nm k] t IHt]; intros o s pre s' ok n E.
+  - cbn [unlink_entries_o] in *. destruct o as [[|j]|]; cbn [tick] in *; inversion E. reflexivity.
+  - destruct o as [[|j]|].
+    + cbn [unlink_entries_o tick] in E. inversion E.
+    + cbn [unlink_entries_o tick] in *.
+      destruct (is_sdir k && is_dots nm); [eapply IHt; exact E|].
+      assert (STEP : forall one : faults -> state * bool * faults,
+                (forall s1 ok1 m, one (Some j) = (s1, ok1, Some m) -> one None = (s1, ok1, None)) ->
+                (let '(st1, ok1, o2) := one (Some j) in
+                 if ok1 then unlink_entries_o (fun o' s0 p0 => d_unlink_o f o' s0 p0 true) o2 st1 pre t else (st1, false, o2))
+                = (s', ok, Some n) ->
+                (let '(st1, ok1, o2) := one None in
+                 if ok1 then unlink_entries_o (fun o' s0 p0 => d_unlink_o f o' s0 p0 true) o2 st1 pre t else (st1, false, o2))
+                = (s', ok, None)).
+      { intros one N E0. destruct (one (Some j)) as [[s1 ok1] o2] eqn:E1. destruct ok1.
+        - destruct o2 as [m|].
+          + rewrite (N s1 true m eq_refl). eapply IHt. exact E0.
+          + pose proof (unlink_entries_o_none f t s1 pre) as X. rewrite E0 in X. discriminate X.
+        - inversion E0. subst. rewrite (N s' false n eq_refl). reflexivity. }
+      destruct k.
+      * apply (STEP (fun ox => f_unlink_o ox s (pre ++ nm))); [|exact E].
+        intros s1 ok1 m E1. eapply f_unlink_o_unconsumed; exact E1.
+      * apply (STEP (fun ox => d_unlink_o f ox s (pre ++ nm) true)); [|exact E].
+        intros s1 ok1 m E1. eapply IHf; exact E1.
+      * apply (STEP (fun ox => f_unlink_o ox s (pre ++ nm))); [|exact E].
+        intros s1 ok1 m E1. eapply f_unlink_o_unconsumed; exact E1.
+    + pose proof (unlink_entries_o_none f ((nm, k) :: t) s pre) as X. rewrite E in X. discriminate X.
+Qed.
+
+Lemma unconsumed_all f : unconsumed_ok f.
+Proof.
+  induction f as [|f IHf]; intros o st p r st' b n E.
+  - destruct o as [[|j]|].
+    + rewrite unlink_first_call_fails in E. inversion E.
+    + cbn [d_unlink_o tick] in *. destruct (k_rmdir st p) as [s1 [e|]].
+      * destruct (negb r || negb (is_enotempty e)); inversion E; reflexivity.
+      * inversion E. reflexivity.
+    + pose proof (d_unlink_o_none 0 st p r) as X. rewrite E in X. discriminate X.
+  - destruct o as [[|j]|].
+    + rewrite unlink_first_call_fails in E. inversion E.
+    + cbn [d_unlink_o tick] in *. destruct (k_rmdir st p) as [s1 [e|]]; [|inversion E; reflexivity].
+      destruct (negb r || negb (is_enotempty e)); [inversion E; reflexivity|].
+      destruct j as [|j]; cbn [tick] in *; [inversion E|].
+      destruct (k_opendir st p) as [ents|e']; [|inversion E; reflexivity].
+      destruct (unlink_entries_o (fun o' s0 p0 => d_unlink_o f o' s0 p0 true) (Some j) st (p ++ [47]) ents)
+        as [[s2 ok2] o3] eqn:E2.
+      destruct ok2.
+      * destruct o3 as [[|m]|]; cbn [tick] in E.
+        -- inversion E.
+        -- rewrite (unlink_entries_o_unconsumed f IHf ents (Some j) st (p ++ [47]) s2 true (S m) E2).
+           cbn [tick]. destruct (k_rmdir s2 p) as [s3 e3]. inversion E. reflexivity.
+        -- destruct (k_rmdir s2 p) as [s3 e3]. inversion E.
+      * inversion E. subst.
+        rewrite (unlink_entries_o_unconsumed f IHf ents (Some j) st (p ++ [47]) st' false n E2). reflexivity.
+    + pose proof (d_unlink_o_none (S f) st p r) as X. rewrite E in X. discriminate X.
+Qed.
+
+(* a fault that was not consumed leaves the fault-free run: every path text, recursive or not *)
+Lemma unlink_unconsumed_fault fuel o st p r st' b n :
+  d_unlink_o fuel o st p r = (st', b, Some n) -> d_unlink_o fuel None st p r = (st', b, None).
+Proof. apply unconsumed_all. Qed.
+
+(* hence, on the class of the unlink theorem: the answer false means that the fault was consumed - a call
+   of the operation did fail - and a fault that was not consumed means true with the exact cut *)
+Lemma unlink_false_means_consumed st names c es fuel o st' o' :
+  names_ok (names ++ [c]) ->
+  get (root st) ((cwd st ++ names) ++ [c]) = Some (NDir es) ->
+  wf_node (root st) = true -> (height (root st) <= fuel)%nat ->
+  d_unlink_o fuel o st (join (names ++ [c])) true = (st', false, o') ->
+  o <> None /\ o' = None.
+Proof.
+  intros Hn G W Hf E.
+  destruct (unlink_with_fault st names c es fuel o Hn G W Hf) as (s1 & b1 & o1 & E1 & _ & _ & _ & F & _).
+  rewrite E in E1. inversion E1. subst. split; [apply F; reflexivity|].
+  destruct o1 as [n|]; [|reflexivity]. exfalso.
+  pose proof (unlink_unconsumed_fault _ _ _ _ _ _ _ _ E) as E0.
+  destruct (unlink_with_fault st names c es fuel None Hn G W Hf) as (s2 & b2 & o2 & E2 & _ & _ & _ & F2 & _).
+  rewrite E0 in E2. inversion E2. subst. apply (F2 eq_refl). reflexivity.
+Qed.
